@@ -355,3 +355,11 @@ def c08_8(ctx):
     d = f.defaults().get('default')
     if d is None or N(d) not in ('np.nan', "float('nan')"):
         ctx.fail(f, f.node, 'the default of `default` is %s, expected np.nan' % (U(d) if d is not None else 'missing'))
+
+
+@obligation('C08.9', 'TABLES (shared with C03.1)', '_pandas:_df_index, _pandas:_np_index',
+            'the binary operators and df_sum/df_count/df_mean align their operands through df_sync -> df_index: a row is NaN / counted exactly where the join policy says so only if the common index really is the intersection (ij) / union (oj) of the operand indices on every path',
+            axioms=('A4',))
+def c08_9(ctx):
+    from . import C03 as _c03
+    _c03.c03_1(ctx)
